@@ -374,6 +374,37 @@ def install(I):
                     work.append((s3, i + 1, kept + ([v.fields[i]] if keep else [])))
         return outs
 
+    @M(r'^<(\[.*\]|Vec<.*>) as Index<(std::ops::|ops::)?Range(To|From|Full|Inclusive|ToInclusive)?(<usize>)?>>::index$', 'slice[a..b] with concrete bounds (copy of the sub-sequence)')
+    def m_index_range(I, st, f, args, fr):
+        seq = deref_val(I, st, args[0])
+        if not is_coll(seq, 'Vec', '[]'):
+            raise Unmodelled('range index of %r' % (seq,))
+        r = args[1]
+        kind = re.search(r'Index<(?:std::ops::|ops::)?(Range\w*)', f).group(1)
+
+        def conc(x):
+            t = z3.simplify(x.t if isinstance(x, Sc) else x)
+            if not z3.is_bv_value(t) and not z3.is_int_value(t):
+                raise Unmodelled('symbolic range bound in ' + f)
+            return t.as_long()
+        n = len(seq.fields)
+        fs = [conc(x) for x in (r.fields if isinstance(r, Agg) else ())]
+        if kind == 'Range':
+            lo, hi = fs[0], fs[1]
+        elif kind == 'RangeTo':
+            lo, hi = 0, fs[0]
+        elif kind == 'RangeFrom':
+            lo, hi = fs[0], n
+        elif kind == 'RangeFull':
+            lo, hi = 0, n
+        elif kind == 'RangeToInclusive':
+            lo, hi = 0, fs[0] + 1
+        else:
+            raise Unmodelled('range kind ' + kind)
+        if lo > hi or hi > n:
+            return panic(I, st, 'range end index %d out of range for slice of length %d' % (hi, n))
+        return I.ret(st, Ref(st.alloc(Agg('[]', seq.fields[lo:hi])), ()))
+
     @M(r'^<Vec<.*> as Index<usize>>::index$|^<VecDeque<.*> as Index<usize>>::index$|^<Vec<.*> as IndexMut<usize>>::index_mut$|^Vec::<.*>::get$|^VecDeque::<.*>::get(_mut)?$|^core::slice::<impl \[.*\]>::get(_mut)?$', 'index / get')
     def m_index(I, st, f, args, fr):
         r = args[0]
